@@ -89,6 +89,7 @@ type Op struct {
 	Prec  string         `json:"prec,omitempty"`
 	Task  string         `json:"task,omitempty"`
 	Why   string         `json:"why,omitempty"` // generator's note: which class this op was drawn from
+	Stale bool           `json:"stale,omitempty"` // compress: a backup directory of an earlier (interrupted or still being removed) compression is present
 }
 
 func (o Op) String() string { return fmt.Sprintf("%s(%s,%s)", o.K, o.Idx, o.ID) }
@@ -582,6 +583,7 @@ func GenHistory(p GenParams) *rapid.Generator[[]Op] {
 			case KCompress:
 				op.Idx = pickIdx(t, sh, true)
 				op.Prec = rapid.SampledFrom([]string{"float16", "int8", "float16", "int8", "float32", "int4"}).Draw(t, "target")
+				op.Stale = rapid.IntRange(0, 3).Draw(t, "stale-backup") == 0
 				if !p.AllowInt8 && op.Prec == "int8" {
 					op.Prec = "float16"
 				}
@@ -590,6 +592,11 @@ func GenHistory(p GenParams) *rapid.Generator[[]Op] {
 				op.Task = rapid.SampledFrom([]string{"vacuum", "refine", "vacuum"}).Draw(t, "task")
 			}
 			ops = append(ops, op)
+			// a second compression of the same index right behind the first (its backup directory may still exist)
+			if op.K == KCompress && sh.idx[op.Idx] != nil && rapid.IntRange(0, 2).Draw(t, "compress-again") == 0 {
+				again := Op{K: KCompress, Idx: op.Idx, Prec: rapid.SampledFrom([]string{"float16", "float32", "float16"}).Draw(t, "target2")}
+				ops = append(ops, again)
+			}
 			// re-creation of a dropped index under the same name, followed by writes to it
 			if op.K == KDrop && dropExisted && p.RecreatePct > 0 && rapid.IntRange(0, 99).Draw(t, "recreate") < p.RecreatePct {
 				cfg := genCfg(t, p)
